@@ -32,7 +32,9 @@ class Ob:
     id: str
     lhs: str
     rhs: str | None = None
-    kind: str = "eq"  # eq | structural_zero | shape
+    kind: str = "eq"  # eq | structural_zero | shape | le lt ge gt ne | taylor | script
+    falsify: object = None  # kind == "script": an Ob of kind le/ge/... over the same outputs, used to search a concrete counterexample when the script fails
+    check: object = None  # kind == "script": callable(trace, low, onodes) -> (status, detail, count) (machine-checked proof script)
     entries: list | None = None  # restrict to these (i, j)
     tol: float = 1e-6  # numeric replay tolerance
     note: str = ""
@@ -93,6 +95,10 @@ def cells(series="closed", gimbal=None):
         # deciding it here would be unsound (the path is then explored instead)
         if op == "LT" and g.op(args[1]) == "CONST" and g.payload(args[1]) == SERIES_EPS and (g.op(args[0]) == "FABS" or nonneg_node(g, args[0])):
             if is_gimbal(g, n):
+                if gimbal in ("north", "south"):
+                    # band cells: the first test is |asin(.) - pi/2| < 1e-3 (SUB), the second |asin(.) + pi/2| < 1e-3 (ADD)
+                    first = g.op(g.args(g.args(n)[0])[0]) == "SUB"
+                    return (gimbal == "north") if first else (gimbal == "south")
                 return False if gimbal == "outside" else None
             if series == "closed":
                 return False
@@ -141,7 +147,7 @@ def source_hash(fn):
 class Trace:
     def __init__(self, id, inputs, build, obligations, functions=(), decide=None, lemmas=(), max_paths=64,
                  budget_s=120, post_bind=None, note="", sample_filter=None, expect_paths=None, requires_nonzero=None,
-                 requires_smt=None, definedness=True, smt_timeout=10, numeric=None, witness_candidates=None):
+                 requires_smt=None, definedness=True, smt_timeout=10, numeric=None, witness_candidates=None, smt_lemmas=None):
         self.id = id
         self.inputs = inputs
         self.build = build
@@ -155,6 +161,7 @@ class Trace:
         self.note = note
         self.sample_filter = sample_filter
         self.requires_nonzero = requires_nonzero  # callable(low, sorts) -> list of Frac/Poly declared nonzero by `requires`
+        self.smt_lemmas = smt_lemmas  # callable(rs, sorts, low) -> [(name, z3 formula)]: cut formulas, each PROVED by the solver before it is used
         self.requires_smt = requires_smt  # callable(rs: RingSMT, sorts) -> list of z3 constraints (extra requires for SMT queries)
         self.definedness = definedness
         self.smt_timeout = smt_timeout
@@ -283,6 +290,11 @@ class Trace:
             rows = per_ob[ob.id]
             for pstr, trace, st, detail, cnt, secs in rows:
                 r = Result(self.id, ob.id, st, "ALG", pstr, secs, detail, None, cnt)
+                if st == UNDECIDED and ob.kind == "script" and ob.falsify is not None:
+                    w = self._find_witness(g, onodes, fn, outs, ob.falsify, trace, rng)
+                    if w is not None:
+                        r.status, r.witness = REFUTED, w
+                        r.detail = "proof script failed and a concrete input violates the inequality: " + detail
                 if st == REFUTED:
                     r.witness = self._find_witness(g, onodes, fn, outs, ob, trace, rng)
                     if r.witness is None:
@@ -395,9 +407,21 @@ class Trace:
             fa, fb = rs.frac(a), rs.frac(b)
             goals.append({"le": fa <= fb, "lt": fa < fb, "ge": fa >= fb, "gt": fa > fb, "ne": fa != fb}[ob.kind])
         assum = assum + rs.atom_constraints()
+        note = ""
+        if self.smt_lemmas:
+            # cut rule: an auxiliary formula is added to the context only after the solver has proved it from the context
+            cache = getattr(low, "_lemma_cache", None)
+            if cache is None:
+                cache = low._lemma_cache = []
+                for name, fml in self.smt_lemmas(rs, self._sorts(), low):
+                    st_l, _, _, _ = smt.check(assum + [f for _, f in cache], fml, max(self.smt_timeout, 20), want_model=False)
+                    if st_l == "proved":
+                        cache.append((name, fml))
+            assum = assum + [f for _, f in cache]
+            note = f"; {len(cache)} auxiliary lemma(s) proved first and used as cuts: " + ", ".join(n for n, _ in cache)
         st, model, secs, solver = smt.check(assum, z3.And(goals) if len(goals) > 1 else goals[0], max(self.smt_timeout, 20))
         if st == "proved":
-            return PROVED, f"{cnt} entries: {ob.kind} proved by {solver} under requires + path condition ({secs:.2f}s)", cnt
+            return PROVED, f"{cnt} entries: {ob.kind} proved by {solver} under requires + path condition ({secs:.2f}s){note}", cnt
         if st == "refuted":
             return REFUTED, f"{solver} model violates {ob.kind}: " + str(model)[:300], cnt
         return UNDECIDED, f"SMT {solver}: unknown after {secs:.1f}s", cnt
@@ -430,6 +454,12 @@ class Trace:
             return self._check_ineq(low, onodes, ob)
         if ob.kind == "taylor":
             return self._check_taylor(low, onodes, ob)
+        if ob.kind == "script":
+            from .absproof import ProofFailed
+            try:
+                return ob.check(self, low, onodes)
+            except ProofFailed as e:
+                return UNDECIDED, f"proof script: {e}", 0
         L = onodes[ob.lhs]
         Rm = onodes[ob.rhs] if ob.rhs is not None else None
         if Rm is not None and (len(L) != len(Rm) or len(L[0]) != len(Rm[0])):
